@@ -1,4 +1,5 @@
 import KyupyVerif.Proofs.Stil
+import KyupyVerif.Proofs.StilText
 import KyupyVerif.Proofs.MvChk
 import KyupyVerif.Gen.MvTables
 import KyupyVerif.Proofs.StilSim
@@ -16,8 +17,17 @@ position counted from scan-out, `markers pre` / `markers post` the number of "!"
   tables generated from the real `logic.interpret`, `logic.mv_transition`, `logic.mv_xor` on every run;
 * `legacy_interface_agrees`, `first_flag_agrees`: when the two as-found variants (`Mode.legacy`) coincide with the property mode;
   `legacy_inversion_differs`, `legacy_interface_differs`: concrete inputs where they do not (findings D12, D11).
+* text level (section `text`, model `KV.StilText` in Model/StilText.lean = the grammar of `stil.py` read as lark reads it:
+  contextual scanner with the per-state terminal order of the real `Lark` object incl. the merged states after a quoted name
+  and after a skipped `{ .. }` region, `/[^;]+/` values, nested skipped regions; then `StilFile.ok` = what the transformer and
+  `StilFile.__init__` raise on): `stil_text_roundtrip` — `parseStil (printStil f) = some f` for every valid syntax tree;
+  `stil_text_roundtrip_tree` (grammar alone).  `StilFile.toFile` (`dict(..)` semantics, `.SI` / path stripping of cell names) is the
+  hand-over to `KV.Stil.File`.
 **Correspondence (sampled, harness/c18.py):** model in property mode = real `StilFile.tests/tests_loc/responses` on generated
-circuit x STIL-text pairs, the model being fed with the real parse result; the lark grammar is exercised, not modelled.
+circuit x STIL-text pairs, the model being fed with the real parse result.  Text level: the model reader (driver `stilparse`)
+against the real lark grammar — parse tree with ALL tokens kept — the real `stil.parse` (accept / raise) and its three
+dictionaries `signal_groups` / `scan_chains` / `calls` (= `toFile`) on generated, hand-written and mutated texts.  Still trusted:
+that lark implements the grammar as the hand-written reader does — checked by this correspondence, not proved.
 **Oracle:** real results vs the generator's ground truth (which flip-flop / port must hold which value).
 The 8-valued simulation inside `tests_loc` is a parameter (`nxt`) of `Stil.testsLoc`; section "end to end" below instantiates it
 with `StilSim.nxtOf` — the real 8-valued dispatch `semL8` on the `SimOps` program of the netlist, stimulus = init column on
@@ -700,5 +710,65 @@ and with a latch the as-found interface is shorter than `s_nodes` -/
 theorem legacy_interface_differs :
     tests ⟨.upperDff, .full⟩ exC exF = .error .key ∧ exC.upperDffIntf.length + 2 = exC.sNodes.length := by
   decide +kernel
+
+/-! ## text level: the grammar of `stil.py` (Model/StilText.lean) -/
+section text
+open KV.StilText
+
+/-- Print/parse round trip of the STIL text model: for every syntax tree `f` of the grammar (version, skipped blocks,
+PatternBurst, UserKeywords, SignalGroups with `+` lists / annotation block / optional `;`, ScanStructures with all
+ScanChain statements incl. `!` markers, Pattern blocks with labels, W, C, Macro, Ann and Call statements with
+parameter lists) whose tokens are tokens of the grammar (`StilFile.valid`: quoted names without `"` inside, digits,
+version over `[-0-9.]`, parameter values without `;` that do not start with a blank / line end / `/`, skipped regions
+well nested with text runs that start at such a character and never follow one another) and that the transformer accepts (`StilFile.ok`, part of `valid`), reading the canonical text (every token
+preceded by a blank, a value directly followed by its `;`, a text run of a skipped region directly by its brace) gives back exactly `f` — through the scanner with lark's
+per-state terminal order (incl. the merged states after a quoted name and after a skipped region), the reader for the
+grammar, and the raise conditions of transformer and `StilFile.__init__`. -/
+theorem stil_text_roundtrip (f : StilFile) (h : f.valid = true) : parseStil (printStil f) = some f := parseStil_print f h
+
+/-- the same at the grammar level alone (what lark's parse tree contains, no transformer) -/
+theorem stil_text_roundtrip_tree (f : StilFile) (h : f.valid = true) : parseTree (printStilL f) = some f :=
+  parseTree_print f h
+
+private def t (s : String) : Txt := s.toList
+
+/-- two chains with markers and hierarchical cell names, groups with and without annotation block / semicolon, nested
+skipped regions with text, a pattern with label, W, C, Macro, Ann and three calls -/
+def exText : StilFile :=
+  { version := t "1.0", headIgn := some [IgnTok.nob (t "Design 2005; ")],
+    blocks := [.skip .Header [.nob (t "Title \"x\"; History "), .opn, .nob (t "Ann "), .opn, .nob (t "* a *"), .cls, .cls],
+      .skip .Signals [.nob (t "\"a0\" In; \"z0\" Out; ")],
+      .groups [⟨t "\"_pi\"", t "\"a0\"", [t "\"clk\"", t "\"si0\""], none, true⟩, ⟨t "\"_si\"", t "\"si0\"", [], some [], false⟩,
+               ⟨t "\"_po\"", t "\"z0\"", [t "\"so0\""], some [], true⟩, ⟨t "\"all\"", t "\"_pi\"", [t "\"_po\""], none, false⟩],
+      .skip .Timing [],
+      .chains [⟨t "\"c0\"", [.length (t "2"), .scanIn (t "\"si0\""), .scanOut (t "\"so0\""), .inv (t "1"),
+                 .cells [.bang, .cell (t "\"top.f0.SI\""), .bang, .bang, .cell (t "\"f1\"")], .clock (t "\"clk\"")]⟩,
+               ⟨t "\"c1\"", [.scanIn (t "\"si1\""), .cells [.cell (t "\"r_reg[3].SI\"")], .scanOut (t "\"so1\"")]⟩],
+      .burst (t "\"_burst_\"") [], .skip .Patternexec [], .skip .Procedures [], .skip .Macrodefs [], .ukw (t "abc;"),
+      .pattern (t "\"_pattern_\"") [.w (t "\"_default_WFT_\""), .label (t "\"precondition\""), .c [.nob (t "\"_pi\"=\\r4 0 ; ")], .macro_ (t "\"test_setup\""),
+        .ann [.nob (t "* fast_sequential *")], .label (t "\"pattern 0\""), .call (t "\"load_unload\"") [(t "\"si0\"", t "01"), (t "\"si1\"", t "N")],
+        .call (t "\"multiclock_capture\"") [(t "\"_pi\"", t "0P1"), (t "\"_po\"", t "LH")],
+        .call (t "\"load_unload\"") [(t "\"so0\"", t "L\nH"), (t "\"so1\"", t "X")]]] }
+
+example : exText.valid = true := by decide +kernel
+example : parseStil (printStil exText) = some exText := stil_text_roundtrip exText (by decide +kernel)
+/-- hand-over to the post-parse model: cell names lose `.SI` and their path, markers stay, ports frame the chain -/
+example : (exText.toFile.map fun f => (f.chains, f.groups.map (·.1), f.calls.map (·.name)))
+    = some ([⟨"si0", ["!", "f0", "!", "!", "f1"], "so0"⟩, ⟨"si1", ["r_reg[3]"], "so1"⟩], ["_pi", "_si", "_po", "all"],
+            ["load_unload", "multiclock_capture", "load_unload"]) := by decide +kernel
+
+/-- the reader on a text the printer does not produce: comments, a nested skipped region with text (the ignored terminal is
+tried first, so text inside starts at its first solid character), a wrapped value,
+`ScanInversion` before `ScanIn` (longest keyword first), no blank between tokens -/
+example : parseStil ("STIL 1.0 { Design 2005; }\nHeader { Title \"x\"; History { Ann {* a *} } } // c\n" ++
+      "ScanStructures{ScanChain\"1\"{ScanInversion 0;ScanIn\"i\";ScanCells\"a\"!;}}Pattern\"p\"{Call\"c\"{\"k\"= 0\n1 ;}}")
+    = some ⟨t "1.0", some [.nob (t "Design 2005; ")],
+        [.skip .Header [.nob (t "Title \"x\"; History "), .opn, .nob (t "Ann "), .opn, .nob (t "* a *"), .cls, .cls],
+         .chains [⟨t "\"1\"", [.inv (t "0"), .scanIn (t "\"i\""), .cells [.cell (t "\"a\""), .bang]]⟩],
+         .pattern (t "\"p\"") [.call (t "\"c\"") [(t "\"k\"", t "0\n1 ")]]]⟩ := by decide +kernel
+/-- the grammar accepts a file without ScanStructures; `StilFile.__init__` raises on it -/
+example : parseStil "STIL 1.0; Pattern \"p\" { }" = none ∧ (parseTree "STIL 1.0; Pattern \"p\" { }".toList).isSome = true := by
+  decide +kernel
+end text
 
 end KV.C18
